@@ -502,7 +502,11 @@ func (fr *Frame) execBinOp(ins *ssa.BinOp, c *blockCtx) {
 		fr.safety("overflow", c.reach, g.typeInv(t.S, ins.Type()), ins)
 		return
 	}
-	t := fr.define(ins, Term{wrapInt(raw, b), SInt})
+	wrapped := wrapInt(raw, b)
+	if ins.Op == token.ADD || ins.Op == token.SUB {
+		wrapped = wrapNear(raw, b) // both operands are in range: at most one period off
+	}
+	t := fr.define(ins, Term{wrapped, SInt})
 	if ins.Op == token.OR || ins.Op == token.XOR || ins.Op == token.SHL && raw[1] == 's' {
 		g.sc.Assume(g.typeInv(t.S, ins.Type()))
 	}
@@ -549,6 +553,10 @@ func (fr *Frame) execConvert(ins *ssa.Convert, c *blockCtx) {
 		tlo, thi, _ := intRange(tb)
 		if cmpDec(flo, tlo) >= 0 && cmpDec(fhi, thi) <= 0 {
 			fr.define(ins, x)
+			return
+		}
+		if fbits, _ := intBits(fb); func() bool { tbits, _ := intBits(tb); return fbits <= tbits }() {
+			fr.define(ins, Term{wrapNear(x.S, tb), SInt}) // same or smaller width: at most one period off
 			return
 		}
 		fr.define(ins, Term{wrapInt(x.S, tb), SInt})
